@@ -450,3 +450,14 @@ func DecodeRune(p []byte) (rune, int) { return DecodeRuneInString(string(p)) }
 
 // StdDecodeRuneInString calls the real function (never redirected: used by the lemma harness).
 func StdDecodeRuneInString(s string) (rune, int) { return utf8DecodeRuneInString(s) }
+
+// SortSlice replaces sort.Slice / sort.SliceStable under the engine (they use reflection):
+// insertion sort, which is exactly what sort.Slice runs for n <= 12.
+func SortSlice(x any, less func(i, j int) bool) {
+	n := LenAny(x)
+	for i := 1; i < n; i++ {
+		for j := i; j > 0 && less(j, j-1); j-- {
+			SwapAny(x, j, j-1)
+		}
+	}
+}
